@@ -469,6 +469,8 @@ def reader(ctx, F):
             for a in n["arms"]:
                 pk = hir.pat_key(a["pat"])
                 b = sym(a["body"])
+                if b[0] == "ctor" and str(b[1]).endswith(("::Some", "::Ok")) and len(b[2]) == 1:
+                    b = b[2][0]       # `"w" => Some(White)` in a helper whose failure the caller turns into the error
                 if isinstance(pk, tuple) and pk[0] == "lit" and b[0] == "variant" and b[1].startswith(PL):
                     t[pk[1]] = b[1]
             if t:
